@@ -79,6 +79,9 @@ def _run_shard(prop, name, header, cases, timeout):
             # timeout or unparsable output: every remaining lemma counts as not checked
             failed.extend((c, f"coqc rc={rc}: {out[-400:]}") for c in todo)
             return failed
+        if ln < min(start.values()):
+            failed.extend((c, f"the header of the case file does not compile: {out[-400:]}") for c in todo)
+            return failed
         k = max(i for i, s in start.items() if s <= ln)
         failed.append((todo[k], out[-600:]))
         todo = todo[k + 1:]
@@ -127,7 +130,8 @@ FIXED = {
     "hem": [dict(sigma=0.05, p=0.4, eta1=10.0, eta2=5.0, intensity=3.0)],
     "merton": [dict(sigma=0.1, mu_j=0.05, sigma_j=0.2, intensity=1.5), dict(sigma=0.0, mu_j=0.0, sigma_j=0.3, intensity=0.7)],
     "vg": [dict(sigma=0.12, nu=0.2, theta=-0.14), dict(sigma=0.3, nu=0.5, theta=0.0)],
-    "cgmy": [dict(c=1.0, g=5.0, m=5.0, y=y) for y in (-0.5, 0.0, 0.3, 1.0, 1.5)] + [dict(c=0.5, g=2.0, m=3.5, y=0.5)],
+    # G != M on purpose: with G == M every odd-order term of the exponent vanishes and representation defects are invisible
+    "cgmy": [dict(c=1.0, g=4.0, m=6.0, y=y) for y in (-0.5, 0.0, 0.3, 1.0, 1.5)] + [dict(c=0.5, g=2.0, m=3.5, y=0.5)],
 }
 
 
